@@ -7,6 +7,7 @@ pub mod c07;
 pub mod c09;
 pub mod c10;
 pub mod c11;
+pub mod c13;
 pub mod c14;
 pub mod c16;
 pub mod c17;
@@ -23,6 +24,7 @@ pub fn run(id: &str, e: &Engine) -> bool {
 		"C09" => c09::check(e),
 		"C10" => c10::check(e),
 		"C11" => c11::check(e),
+		"C13" => c13::check(e),
 		"C14" => c14::check(e),
 		"C16" => c16::check(e),
 		"C17" => c17::check(e),
@@ -33,4 +35,4 @@ pub fn run(id: &str, e: &Engine) -> bool {
 	true
 }
 
-pub const ALL: &[&str] = &["C03", "C04", "C06", "C07", "C09", "C10", "C11", "C14", "C16", "C17", "C19", "C20"];
+pub const ALL: &[&str] = &["C03", "C04", "C06", "C07", "C09", "C10", "C11", "C13", "C14", "C16", "C17", "C19", "C20"];
